@@ -137,10 +137,14 @@ def unit_of(ts, i):
                 if depth == 0:
                     break
             p -= 1
-        if p >= 1 and ts[p - 1]["k"] == "N":
-            return (p - 1, j)
-        if p >= 2 and ts[p - 1]["k"] == "B" and ts[p - 2]["k"] == "N":
-            return (p - 2, j)
+        # the anchoring node, possibly with its own multiplier and a bond symbol in between: N [M] [B] (
+        q = p - 1
+        if q >= 0 and ts[q]["k"] == "B":
+            q -= 1
+        if q >= 0 and ts[q]["k"] == "M":
+            q -= 1
+        if q >= 0 and ts[q]["k"] == "N":
+            return (q, j)
     return None
 
 
